@@ -11,7 +11,7 @@ from .. import core, scen, treerun, treegen, fileproj
 def gen(rng):
     sc = treerun.Scn()
     sc.d(b'/W').d(b'/W/S')
-    ents = treegen.gen_subtree(rng, sc, b'/W/S', rng.randint(1, 3), rng.randint(2, 4), links=True, specials=False)
+    ents = treegen.gen_subtree(rng, sc, b'/W/S', rng.randint(1, 3), rng.randint(2, 4), links=True, specials=rng.random() < 0.4)
     # multi-block files and many small ones
     for i in range(rng.choice([0, 3, 12])):
         sc.f(b'/W/S/small%d' % i)
@@ -31,6 +31,12 @@ def file_meta(root, toks):
             st = os.lstat(root.encode() + p)
             out[p] = (stat.S_IMODE(st.st_mode), st.st_mtime_ns)
     return out
+
+
+def dir_modes(root, toks, before):
+    """permission bits of the directories the run created (process-wide state such as the umask must not leak between threads)"""
+    pre = treerun.decode(before)
+    return {p: stat.S_IMODE(os.lstat(root.encode() + p).st_mode) for p, v in treerun.decode(toks).items() if v == 'd' and p.startswith(b'/W/DEST') and p not in pre}
 
 
 def check_trace(o, dest_real):
@@ -95,6 +101,58 @@ def forced_order_findings(ctx, base):
         ctx.violation('F14-exit.json', dict(outcomes=[x[0] for x in outs]), 'C06: the exit status of a failing run depends on the schedule / is 0')
 
 
+def backup_prefix_names(ctx, base):
+    """numbered backups of prefix-related sibling names (f, f0, f00) over a populated destination: the listing must not
+    depend on which worker's rename lands first (no model comparison: L1 has no backups; runs are compared with each other)"""
+    rng = ctx.rng
+    ref = None
+    for j in range(6 if ctx.quick else 24):
+        sc = treerun.Scn(); sc.driver = ['parfile', 'parblock'][j % 2]; sc.workers = [1, 4, 8][j % 3]
+        sc.d(b'/W').d(b'/W/S').d(b'/W/DEST')
+        for n in (b'f00', b'f0', b'f', b'g'):
+            sc.f(b'/W/S/' + n, text=b'new-' + n); sc.f(b'/W/DEST/' + n, text=b'old-' + n)
+        sc.opts = ['r', 'T']; sc.extra = ['--backup=numbered']; sc.paths = [b'S', b'DEST']
+        plan = [f'sched {ctx.seed * 71 + j} {rng.choice(["pct", "delay"])} {rng.randint(1, 3)}', 'stallp rename * %d' % rng.choice([0, 3000, 20000])]
+        if j == 0:      # forced order: the longest name first, then its prefixes (each worker starts after the previous one's rename)
+            sc.driver, sc.workers, plan = 'parfile', 4, ['stallp openat =S/f0 60000', 'stallp openat =S/f 120000', 'stallp openat =S/g 1000']
+        elif j == 1:    # forced order: the shortest name first
+            sc.driver, sc.workers, plan = 'parfile', 4, ['stallp openat =S/f0 60000', 'stallp openat =S/f00 120000']
+        o = treerun.run(base, sc, plan=plan, trace=True, timeout=60)
+        names = sorted(p for p in treerun.decode(o.after) if p.startswith(b'/W/DEST/'))
+        cur = (o.res.cls, tuple(names))
+        ctx.count('backup_prefix_names.' + o.res.cls)
+        ctx.case(('backup-prefix', j, sc.driver, sc.workers, tuple(plan)), True, sample=dict(scenario='backup-prefix-names', listing=[n.decode() for n in names]) if j == 0 else None)
+        if ref is None:
+            ref = (cur, sc.driver, sc.workers, plan)
+        elif cur != ref[0]:
+            ctx.violation(f'backup-prefix-{j}.json', dict(this=dict(driver=sc.driver, workers=sc.workers, plan=plan, exit=cur[0], listing=[repr(n) for n in cur[1]]),
+                                                          other=dict(driver=ref[1], workers=ref[2], plan=ref[3], exit=ref[0][0], listing=[repr(n) for n in ref[0][1]])),
+                          f'C06: with --backup=numbered the destination listing depends on the schedule/driver: {sorted(set(cur[1]) ^ set(ref[0][1]))[:4]}')
+            break
+
+
+def process_wide_state(ctx, base):
+    """many special nodes created by the workers while the walker keeps creating directories: nothing process-wide
+    (umask, cwd) touched around one thread's node creation may leak into what another thread creates"""
+    for j, (driver, workers) in enumerate((('parfile', 4), ('parblock', 2), ('parfile', 1))):
+        sc = treerun.Scn(); sc.driver, sc.workers = driver, workers
+        sc.d(b'/W').d(b'/W/S')
+        for i in range(24):
+            sc.d(b'/W/S/d%d' % i); sc.s(b'/W/S/d%d/p' % i, 'fifo'); sc.s(b'/W/S/d%d/q' % i, 'fifo'); sc.f(b'/W/S/d%d/f' % i); sc.d(b'/W/S/d%d/sub' % i)
+        sc.opts = ['r']; sc.extra = ['--no-perms'] if j == 2 else []; sc.paths = [b'S', b'DEST']
+        o = treerun.run(base, sc, plan=['stall mknodat 4000', 'stall umask 4000'], trace=True, timeout=120)
+        dm = dir_modes(o.root, o.after, o.before)
+        wrong = {p: m for p, m in dm.items() if m != 0o755}
+        fm = {p: stat.S_IMODE(os.lstat(o.root.encode() + p).st_mode) for p, v in treerun.decode(o.after).items() if v.startswith('f:') and p.startswith(b'/W/DEST')}
+        wrongf = {p: m for p, m in fm.items() if m != 0o644}
+        ctx.count('process_wide_state.' + o.res.cls)
+        ctx.case(('process-wide', driver, workers), True, sample=dict(scenario='24 dirs x (2 fifos, file, subdir)', driver=driver, workers=workers, dirs_checked=len(dm)) if j == 0 else None)
+        if o.res.cls != '0' or wrong or wrongf:
+            ctx.violation(f'process-wide-{driver}-{workers}.json', dict(driver=driver, workers=workers, exit=o.res.cls, wrong_dirs={repr(p): oct(m) for p, m in list(wrong.items())[:6]},
+                                                                      wrong_files={repr(p): oct(m) for p, m in list(wrongf.items())[:6]}),
+                          f'C06: permissions of created directories/files depend on what other threads were doing ({driver}, {workers} workers): {len(wrong)} directories not 0755, {len(wrongf)} files not 0644')
+
+
 def run(ctx):
     ctx.proofs()
     core.build_repo(); core.build_sup()
@@ -103,6 +161,8 @@ def run(ctx):
     per = 6 if ctx.quick else 24
     with core.Scratch('c06') as base:
         forced_order_findings(ctx, base)
+        backup_prefix_names(ctx, base)
+        process_wide_state(ctx, base)
         for i in range(n):
             sc = gen(rng)
             configs = [(d, w) for d in ('parfile', 'parblock') for w in (1, 2, 3, 8, 64)]
@@ -115,6 +175,12 @@ def run(ctx):
                 plan = [f'sched {ctx.seed * 1009 + i * 37 + j} {mode} {rng.randint(1, 4)}']
                 if rng.random() < 0.3:
                     plan.append(f'stall copy_file_range {rng.choice([300, 1500])}')
+                if j == 3:      # another file system: copy_file_range refused, the user-space loops run on several workers at once
+                    plan.append(f'fail copy_file_range * * {scen.ERRNO["EXDEV"]}')
+                if j == 1:      # a slow walker: every directory creation takes 0.6 s while the workers sit idle
+                    plan = ['stall mkdir 600000']
+                if j == 2:      # process-wide state touched around node creation must not leak into other threads
+                    plan.append('stall mknodat 3000')
                 o = treerun.run(base, sc, plan=plan, trace=True, timeout=90)
                 o.cwd_real = o.root + '/W'
                 ctx.count(f'driver.{driver}'); ctx.count(f'workers.{workers}'); ctx.count(f'sched.{mode}'); ctx.count(f'exit.{o.res.cls}')
@@ -130,6 +196,12 @@ def run(ctx):
                     ctx.violation(f'case-{i}-{j}-exit.json', info, f'C06: exit status {o.res.cls} under {driver}/{workers}/{plan}, other schedules and the model exit 0')
                     continue
                 meta = file_meta(o.root, o.after)
+                dm = dir_modes(o.root, o.after, o.before)
+                wrong = {p: m for p, m in dm.items() if m != 0o755}
+                if wrong:
+                    ctx.violation(f'case-{i}-{j}-dirmode.json', dict(info, wrong={repr(p): oct(m) for p, m in list(wrong.items())[:8]}),
+                                  f'C06: {len(wrong)} created directories have permissions other than 0777 & ~umask under ({driver}, {workers} workers, {plan}): e.g. {oct(list(wrong.values())[0])}')
+                    continue
                 cur = (o.after, None)       # metadata is compared with each run's own sources below (the tree is re-created per run)
                 # ---- oracle on the implementation: same final destination as every other schedule / worker count / driver
                 if ref is None:
